@@ -261,7 +261,8 @@ def plans(draw, versions=None):
     names = sorted(cls.COMMANDS)
     pend = None
     if draw(st.booleans()):
-        pname = draw(st.sampled_from(names + ["getNodeId", "sendUnicast", "nop", "getKey"] if "getKey" in names else names))
+        # "version" has frame ID 0 and is the first command of every session: over-represented on purpose
+        pname = draw(st.sampled_from(names + ["getNodeId", "sendUnicast", "nop", "getKey", "version", "version"] if "getKey" in names else names + ["version", "version", "nop"]))
         if pname == "invalidCommand":
             pname = "nop"
         cid, tx, rx = cls.COMMANDS[pname]
